@@ -1240,9 +1240,115 @@ func runVMValuesParts(c *Ctx, r *Reporter, fresh, rest bool) {
 			}
 		}
 	}
+	// (1b) repetition: elements appended inside a loop are deep copies, never the operand's own elements
+	if fd := FindFunc(pkg, "(*VM).Run"); fd != nil {
+		sf := p.SSAFunc(fd.Obj)
+		n := 0
+		for _, b := range sf.Blocks {
+			for _, ins := range b.Instrs {
+				call, ok := ins.(*ssa.Call)
+				if !ok {
+					continue
+				}
+				bi, ok := call.Call.Value.(*ssa.Builtin)
+				if !ok || bi.Name() != "append" || len(call.Call.Args) != 2 {
+					continue
+				}
+				// inside a loop of its own (nested in the instruction dispatch loop)
+				h := loopHeaderOf(b)
+				if h == nil {
+					continue
+				}
+				nested := false
+				for _, h2 := range sf.Blocks {
+					if h2 != h {
+						if body := naturalLoop(h2); body != nil && body[h] {
+							nested = true
+						}
+					}
+				}
+				if !nested {
+					continue
+				}
+				src := call.Call.Args[1]
+				if _, isSlice := src.Type().Underlying().(*types.Slice); !isSlice {
+					continue
+				}
+				if es, ok := src.Type().Underlying().(*types.Slice); !ok || !types.IsInterface(es.Elem()) {
+					continue
+				}
+				n++
+				// the appended elements: Field Elements of a value that is the result of deepCopy (through a type assertion)
+				deep := false
+				if f, ok := src.(*ssa.Field); ok {
+					v := f.X
+					if ta, ok := v.(*ssa.TypeAssert); ok {
+						v = ta.X
+					}
+					if c2, ok := v.(*ssa.Call); ok && c2.Call.StaticCallee() != nil && c2.Call.StaticCallee().Name() == "deepCopy" {
+						deep = true
+					}
+				}
+				r.Check(deep, fmt.Sprintf("%s#repeat-deep[%d]", fd.QName(), n), p.Rel(instrPos(call)), "elements appended repeatedly are deep copies of the operand",
+					"a loop appends the operand's own elements again and again (array repetition): nested arrays and maps are then shared between the repetitions (`a := [[1]] * 2` `a[0][0] = 5` changes a[1] too), unlike in the evaluator, which deep-copies per repetition")
+			}
+		}
+		if n == 0 {
+			r.Undecided("no repeated append of value elements found in (*VM).Run (array repetition)")
+		}
+	}
 restPart:
 	if !rest {
 		return
+	}
+	// (1c) a step range rejects a zero step before it decides whether to go on (the evaluator's newStepRange does)
+	if fd := FindFunc(pkg, "(*VM).Run"); fd != nil {
+		sf := p.SSAFunc(fd.Obj)
+		found, guarded := 0, 0
+		for _, b := range sf.Blocks {
+			for _, ins := range b.Instrs {
+				// the pair of tests step > 0 / step < 0 on one value marks the continuation test of a step range
+				bo, ok := ins.(*ssa.BinOp)
+				if !ok || bo.Op != token.GTR {
+					continue
+				}
+				k, ok := bo.Y.(*ssa.Const)
+				if !ok || k.Value == nil || k.Value.ExactString() != "0" || !isNamed(bo.X.Type(), pkg.PkgPath, "numVal") {
+					continue
+				}
+				// is the same value also compared == 0 / != 0 on a dominating edge that leaves with an error?
+				found++
+				for _, ref := range *bo.X.Referrers() {
+					z, ok := ref.(*ssa.BinOp)
+					if !ok || (z.Op != token.EQL && z.Op != token.NEQ) || z.X != bo.X {
+						continue
+					}
+					zk, ok := z.Y.(*ssa.Const)
+					if !ok || zk.Value == nil || zk.Value.ExactString() != "0" {
+						continue
+					}
+					for _, r2 := range *z.Referrers() {
+						ifi, ok := r2.(*ssa.If)
+						if !ok {
+							continue
+						}
+						errEdge, goEdge := 0, 1
+						if z.Op == token.NEQ {
+							errEdge, goEdge = 1, 0
+						}
+						if onlyErrorReturns(ifi.Block().Succs[errEdge], map[*ssa.BasicBlock]bool{}) && edgeDominates(ifi.Block(), goEdge, b) {
+							guarded++
+						}
+					}
+				}
+			}
+		}
+		if found == 0 {
+			r.Undecided("no step-range continuation test (step > 0) found in (*VM).Run")
+		} else {
+			r.Check(guarded >= found, fd.QName()+"#zero-step-rejected", p.Rel(fd.Decl.Pos()), "a zero step ends the run with an error before the continuation test",
+				"the step-range instruction tests step > 0 / step < 0 without rejecting step == 0 first: `for i := range 1 5 0` silently runs zero times on the VM while the evaluator reports `step cannot be 0`")
+		}
 	}
 	// (2) lost updates on by-value copies
 	for _, fd := range Funcs(pkg) {
